@@ -151,10 +151,54 @@ fn frame_history(r: &mut Rng, real: &mut Frame, model: &mut FrameModel, cx: &mut
                 // snapshot through the API equals the model
                 let d = frame_to_d(real);
                 cx.check("snapshot fields".into(), d.fields, model.remaining());
+                if r.chance(1, 4) {
+                    let rem = model.remaining();
+                    adaptors(cx, "fields()", r, || real.fields(), |(k, v)| (k.to_string(), v.to_string()), &rem);
+                    adaptors(cx, "Frame::into_iter()", r, || real.clone().into_iter(), |(k, v)| (k.to_string(), v), &rem);
+                }
             }
         }
     }
     iterated_both_after_removal
+}
+
+/// The provided iterator methods (`nth`, `nth_back`, `skip`, `step_by`, `last`, `count`, `rev`, ...) may be overridden by
+/// an implementation; whatever it does, they must agree with the same adaptor applied to the model sequence.
+fn adaptors<T, I>(cx: &mut Ctx<'_>, what: &str, r: &mut Rng, mk: impl Fn() -> I, f: impl Fn(I::Item) -> T + Copy, model: &[T])
+where
+    T: PartialEq + std::fmt::Debug + Clone,
+    I: DoubleEndedIterator,
+{
+    // (the adaptor is applied to the REAL iterator and the conversion to the model's item type comes last: `Map` would
+    // hide an overridden `nth` behind its own default implementation)
+    let n = model.len();
+    let m = || model.iter().cloned();
+    for k in [0, r.below(n + 3), n, n + 1] {
+        {
+            let (mut a, mut b) = (mk(), m());
+            cx.check(format!("{}.nth({})", what, k), a.nth(k).map(f), b.nth(k));
+            cx.check(format!("{}.nth({}) then next()", what, k), a.next().map(f), b.next());
+            cx.check(format!("{}.nth({}) then next_back()", what, k), a.next_back().map(f), b.next_back());
+        }
+        {
+            let (mut a, mut b) = (mk(), m());
+            cx.check(format!("{}.nth_back({})", what, k), a.nth_back(k).map(f), b.nth_back(k));
+            cx.check(format!("{}.nth_back({}) then next_back()", what, k), a.next_back().map(f), b.next_back());
+            cx.check(format!("{}.nth_back({}) then next()", what, k), a.next().map(f), b.next());
+        }
+        cx.check(format!("{}.skip({}).collect()", what, k), mk().skip(k).map(f).collect::<Vec<_>>(), m().skip(k).collect::<Vec<_>>());
+        cx.check(format!("{}.step_by({}).collect()", what, k + 1), mk().step_by(k + 1).map(f).collect::<Vec<_>>(), m().step_by(k + 1).collect::<Vec<_>>());
+        cx.check(format!("{}.take({}).last()", what, k), mk().take(k).last().map(f), m().take(k).last());
+        cx.check(format!("{}.rev().skip({}).collect()", what, k), mk().rev().skip(k).map(f).collect::<Vec<_>>(), m().rev().skip(k).collect::<Vec<_>>());
+    }
+    cx.check(format!("{}.count()", what), mk().count(), n);
+    cx.check(format!("{}.last()", what), mk().last().map(f), m().last());
+    cx.check(format!("{}.rev().collect()", what), mk().rev().map(f).collect::<Vec<_>>(), m().rev().collect::<Vec<_>>());
+    cx.check(format!("{}.fold", what), mk().fold(0usize, |a, _| a + 1), n);
+    cx.check(format!("{}.collect()", what), mk().map(f).collect::<Vec<_>>(), m().collect::<Vec<_>>());
+    let mut a = mk();
+    let _ = a.next();
+    cx.check(format!("{}.next() then count()", what), a.count(), n.saturating_sub(1));
 }
 
 fn response_history(r: &mut Rng, real: &Response, frames: &[DFrame], error: &Option<AError>, cx: &mut Ctx<'_>) {
@@ -208,6 +252,28 @@ fn response_history(r: &mut Rng, real: &Response, frames: &[DFrame], error: &Opt
             }
         }
     }
+    adaptors(
+        cx,
+        "frames()",
+        r,
+        || real.frames(),
+        |x| match x {
+            Ok(f) => RItem::Frame(frame_to_d(f)),
+            Err(e) => RItem::Error(err_to_a(e)),
+        },
+        &items,
+    );
+    adaptors(
+        cx,
+        "into_iter()",
+        r,
+        || real.clone().into_iter(),
+        |x| match x {
+            Ok(f) => RItem::Frame(frame_to_d(&f)),
+            Err(e) => RItem::Error(err_to_a(&e)),
+        },
+        &items,
+    );
     // into_single_frame: first frame or the error
     let single = real.clone().into_single_frame();
     let got = match single {
@@ -286,7 +352,7 @@ impl Property for C19 {
     fn meta(&self, _cfg: &Cfg, _acc: &Acc) -> Meta {
         Meta {
             level: "exploration",
-            rule: "responses with 0-6 frames (0-40 fields over 13 keys incl. duplicates and case variants, optional binary) +- error are produced by the real parser; random histories of 1-60 operations per frame (find/get over 17 probe keys, fields_len/is_empty/has_binary/binary/take_binary, borrowed iteration via fields() and &Frame with random next/next_back continued past exhaustion, clone + owned iteration with take_binary) and response iteration (frames(), &Response, owned; random next/next_back with size_hint/len after every step; is_error/is_success/successful_frames/into_single_frame) are compared step by step with a Vec/VecDeque model; non-trivial = history with >=1 removal followed by iteration from both ends; distinct by (response bytes, operation sequence)".into(),
+            rule: "responses with 0-6 frames (0-40 fields over 13 keys incl. duplicates and case variants, optional binary) +- error are produced by the real parser; random histories of 1-60 operations per frame (find/get over 17 probe keys, fields_len/is_empty/has_binary/binary/take_binary, borrowed iteration via fields() and &Frame with random next/next_back continued past exhaustion, clone + owned iteration with take_binary) and response iteration (frames(), &Response, owned; random next/next_back with size_hint/len after every step; is_error/is_success/successful_frames/into_single_frame; the provided iterator methods nth/nth_back/skip/step_by/take+last/count/last/rev/fold on all four iterator types, also overshooting the end) are compared step by step with a Vec/VecDeque model; non-trivial = history with >=1 removal followed by iteration from both ends; distinct by (response bytes, operation sequence)".into(),
             nontrivial_set: "nontrivial",
             assumptions: vec!["frames bounded at 40 fields (recursion depth of the hole-skipping iterators on frames with very many removed fields is out of scope)".into()],
             exhaustive: None,
